@@ -10,7 +10,7 @@
    check is "there is a partitioning of the input into contiguous chunks that explains all
    identifiers" (ids_consistent), decided without knowing the real chunking. *)
 From Coq Require Import List ZArith Bool String.
-From IB Require Import Util.J Engine.Val Validation.Model Validation.Pipe.
+From IB Require Import Util.J Engine.Val Engine.Ops Engine.Planner Validation.Model Validation.Pipe Validation.Tree.
 Import ListNotations.
 Open Scope Z_scope.
 
@@ -581,6 +581,318 @@ Fixpoint judge_multi (keyed : bool) (mc : list (entry Z)) (exact : bool)
   | _, _ => None
   end.
 
+(* ---------- trees: branching pipelines, every builder among the element-wise builders ----------
+   in = [keyed source, threads, rows, script]; script op = [0, parent, step] (builder call) |
+   [1, handle, exec, partitions] (collect); out = one observation per collect with ALL collectors
+   read back: ["ok", rows, colls] | ["panic", colls] | ["err", colls].
+   Model: the pipeline graph of Validation/Tree.v (apply_transform = fresh node + edge; collect =
+   backwalk from the handle, planner order, the block on the single partition [input]; by
+   c17_tree_list_semantics output and payload multisets do not depend on the partitioning).
+   Reference: the handle's lineage (computed here from the script, no graph) under list semantics
+   in written order.  Both are judged relative to the collectors OBSERVED before the collect:
+   completed run: after = before + delta (identifiers exact for collect_seq, payloads for
+   collect_par); panicking run: collect_seq: after = before + the appends of the operators in
+   front of the failing fail-fast step; collect_par: before <= after <= before + what the log
+   steps would append if no fail-fast step failed (which partitions got how far is not
+   determined). *)
+
+(* merge sort on integer lists (big collectors) *)
+Fixpoint zl_merge (a : list (list Z)) : list (list Z) -> list (list Z) :=
+  fix inner (b : list (list Z)) : list (list Z) :=
+    match a, b with
+    | [], _ => b
+    | _, [] => a
+    | x :: a', y :: b' => if zl_leb x y then x :: zl_merge a' b else y :: inner b'
+    end.
+Fixpoint zl_merge_pairs (ls : list (list (list Z))) : list (list (list Z)) :=
+  match ls with
+  | a :: b :: r => zl_merge a b :: zl_merge_pairs r
+  | _ => ls
+  end.
+Fixpoint zl_msort_fuel (fuel : nat) (ls : list (list (list Z))) : list (list Z) :=
+  match fuel with
+  | O => List.concat ls
+  | S f => match ls with
+           | [] => []
+           | [l] => l
+           | _ => zl_msort_fuel f (zl_merge_pairs ls)
+           end
+  end.
+Definition zl_msort (l : list (list Z)) : list (list Z) :=
+  zl_msort_fuel (List.length l) (map (fun x => [x]) l).
+Definition mset_eqb2 (a b : list (list Z)) : bool := ll_eqb (zl_msort a) (zl_msort b).
+(* a <= b as multisets, both sorted *)
+Fixpoint sub_sorted (a : list (list Z)) : list (list Z) -> bool :=
+  fix inner (b : list (list Z)) : bool :=
+    match a, b with
+    | [], _ => true
+    | _, [] => false
+    | x :: a', y :: b' => if zl_eqb x y then sub_sorted a' b'
+                          else if zl_leb y x then inner b' else false
+    end.
+Definition mset_sub (a b : list (list Z)) : bool := sub_sorted (zl_msort a) (zl_msort b).
+
+Definition dec_coll (z : Z) : option (option nat) :=
+  if z =? -1 then Some None
+  else if (0 <=? z) && (z <? 3) then Some (Some (Z.to_nat z)) else None.
+(* a builder call on a handle of static type `keyed`: the step and the static type of the result *)
+Definition dec_tstep (keyed : bool) (j : J) : option (tstep * bool) :=
+  match jints j with
+  | Some [t; a] =>
+      if t =? 0 then Some (if keyed then TMapValues a else TMap a, keyed)
+      else if t =? 5 then (if negb keyed && (0 <? a) then Some (TKeyBy a, true) else None)
+      else None
+  | Some [t; a; b] =>
+      if t =? 1 then
+        (if 0 <? a then Some (if keyed then TFilterValues a b else TFilter a b, keyed) else None)
+      else if t =? 2 then
+        match mode_of a, dec_coll b with
+        | Some md, Some c =>
+            Some ((if keyed then TValidateValues else TValidate) (BWithMode md c), keyed)
+        | _, _ => None
+        end
+      else if t =? 7 then
+        (if keyed && (0 <=? a) then Some (TMapValuesBatches (Z.to_nat a) b, true) else None)
+      else None
+  | Some [t] =>
+      if t =? 3 then Some ((if keyed then TValidateValues else TValidate) BSkipInvalid, keyed)
+      else if t =? 4 then (if keyed then None else Some (TValidate BFailFast, false))
+      else if t =? 6 then (if keyed then Some (TValues, false) else None)
+      else None
+  | _ => None
+  end.
+
+(* rows: explicit, or ["r", n, m, t] = the rows of the big kind *)
+Definition dec_tree_rows (keyed : bool) (j : J) : option (list (list Z)) :=
+  match j with
+  | JL [t; JI n; JI m; JI th] =>
+      if jtag_is "r" t then
+        (if (0 <=? n) && (1 <=? m) && (0 <=? th) then Some (big_rows keyed m th (Z.to_nat n) 0)
+         else None)
+      else dec_rows keyed j
+  | _ => dec_rows keyed j
+  end.
+Definition trow_to_val (row : list Z) : val :=
+  match row with [v] => VInt v | _ => row_to_val row end.
+Definition tval_to_row (v : val) : list Z :=
+  match v with VInt z => [z] | _ => val_to_row v end.
+
+(* observations *)
+Definition tcolls : Type := list (list (Z * Z * list Z) * Z).
+Definition dec_colls (j : J) : option tcolls :=
+  match j with
+  | JL [c0; c1; c2] =>
+      omap (fun c => match c with
+                     | JL [je; JI cnt] => match dec_entries je with
+                                          | Some e => Some (e, cnt)
+                                          | None => None
+                                          end
+                     | _ => None
+                     end) [c0; c1; c2]
+  | _ => None
+  end.
+Inductive tobs := TOOk (rows : list (list Z)) (cs : tcolls) | TOPanic (cs : tcolls)
+                | TOErr (cs : tcolls).
+Definition dec_tobs (keyed : bool) (j : J) : option tobs :=
+  match j with
+  | JL [t; jr; jc] =>
+      if jtag_is "ok" t then
+        match dec_rows keyed jr, dec_colls jc with
+        | Some r, Some c => Some (TOOk r c)
+        | _, _ => None
+        end
+      else None
+  | JL [t; jc] =>
+      match dec_colls jc with
+      | Some c => if jtag_is "panic" t then Some (TOPanic c)
+                  else if jtag_is "err" t then Some (TOErr c) else None
+      | None => None
+      end
+  | _ => None
+  end.
+Definition tobs_colls (o : tobs) : tcolls :=
+  match o with TOOk _ c | TOPanic c | TOErr c => c end.
+(* all entries of all collectors as [collector; prefix; idx; code..] *)
+Fixpoint flat_colls (cid : Z) (cs : tcolls) : list (list Z) :=
+  match cs with
+  | [] => []
+  | (es, _) :: r => map (fun e => cid :: obs_full e) es ++ flat_colls (cid + 1) r
+  end.
+(* error_count = number of entries, identifiers parsed and non-negative, known prefix *)
+Definition colls_sane (cs : tcolls) : bool :=
+  forallb (fun c : list (Z * Z * list Z) * Z =>
+             (snd c =? Z.of_nat (List.length (fst c))) &&
+             forallb (fun e => ((fst (fst e) =? 0) || (fst (fst e) =? 1)) && (0 <=? snd (fst e)))
+                     (fst c)) cs.
+Definition strip_idx (c : list Z) : list Z :=
+  match c with a :: b :: _ :: r => a :: b :: r | _ => c end.
+
+Definition tentry_code (e : tentry) : list Z :=
+  Z.of_nat (te_coll e) :: (if te_keyed e then 1 else 0) :: Z.of_nat (e_idx (te_entry e))
+  :: e_errors (te_entry e).
+
+(* before/after/delta comparisons *)
+Definition delta_exact (exact : bool) (prev cur delta : list (list Z)) : bool :=
+  if exact then mset_eqb2 cur (prev ++ delta)
+  else mset_eqb2 (map strip_idx cur) (map strip_idx (prev ++ delta)).
+Definition delta_within (prev cur maybe : list (list Z)) : bool :=
+  mset_sub (map strip_idx prev) (map strip_idx cur) &&
+  mset_sub (map strip_idx cur) (map strip_idx (prev ++ maybe)).
+
+(* fail-fast steps never failing: an upper bound for what a panicking parallel run may append *)
+Definition relax_builder (b : builder) : builder :=
+  match b with
+  | BWithMode FailFast c => BWithMode SkipInvalid c
+  | BFailFast => BSkipInvalid
+  | _ => b
+  end.
+Definition relax_step (s : tstep) : tstep :=
+  match s with
+  | TValidate b => TValidate (relax_builder b)
+  | TValidateValues b => TValidateValues (relax_builder b)
+  | _ => s
+  end.
+
+(* ---- reference: list semantics of a lineage in written order, on integer rows ---- *)
+Definition add_last (c : Z) (row : list Z) : list Z :=
+  match row with [v] => [v + c] | [k; v] => [k; v + c] | _ => row end.
+(* (output or None = the run fails, appends so far as [collector; prefix; position; code..]);
+   `relaxed`: fail-fast steps behave like skip steps *)
+Fixpoint ref_lineage (relaxed : bool) (ss : list tstep) (rows : list (list Z))
+  : option (list (list Z)) * list (list Z) :=
+  match ss with
+  | [] => (Some rows, [])
+  | s :: t =>
+      let pure (rows' : list (list Z)) := ref_lineage relaxed t rows' in
+      let validate (md : mode) (coll : option nat) (prefix : Z) :=
+        match md with
+        | FailFast =>
+            if relaxed then pure (ref_keep rows)
+            else match ref_payloads rows with [] => pure rows | _ => (None, []) end
+        | SkipInvalid => pure (ref_keep rows)
+        | LogAndContinue =>
+            let mine := match coll with
+                        | Some c => map (fun pe => Z.of_nat c :: prefix :: pe) (ref_positions 0 rows)
+                        | None => []
+                        end in
+            let '(o, pl) := pure (ref_keep rows) in (o, mine ++ pl)
+        end in
+      let of_builder (b : builder) (prefix : Z) :=
+        match b with
+        | BWithMode md c => validate md c prefix
+        | BSkipInvalid => validate SkipInvalid None prefix
+        | BFailFast => validate FailFast None prefix
+        end in
+      match s with
+      | TMap c | TMapValues c | TMapValuesBatches _ c => pure (map (add_last c) rows)
+      | TFilter m r | TFilterValues m r =>
+          pure (filter (fun row => negb (row_value row mod m =? r)) rows)
+      | TKeyBy m => pure (map (fun row => [row_value row mod m; row_value row]) rows)
+      | TValues => pure (map (fun row => [row_value row]) rows)
+      | TValidate b => of_builder b 0
+      | TValidateValues b => of_builder b 1
+      end
+  end.
+
+(* planned order = written order? (a lineage without a validation step that the planner sorts
+   is finding C02-reorder's subject and must not be generated here) *)
+Fixpoint tsteps_same (a b : list nat) : bool :=
+  match a, b with
+  | [], [] => true
+  | x :: a', y :: b' => (x =? y)%nat && tsteps_same a' b'
+  | _, _ => false
+  end.
+Definition plan_is_written (ss : list tstep) : bool :=
+  tsteps_same (map op_uid (Planner.reorder_ops (compile_tfrom 0 ss))) (seq 0 (List.length ss)).
+
+Record tstate := mk_tstate {
+  ts_g : tgraph; ts_hs : list nat; ts_shapes : list bool; ts_lins : list (list tstep) }.
+
+(* one collect: (agree, prop, flattened collectors after) *)
+Definition judge_collect (st : tstate) (rows : list (list Z)) (prev : list (list Z))
+           (h : nat) (sq : bool) (j : J) : option (bool * bool * list (list Z)) :=
+  match nth_error (ts_shapes st) h, nth_error (ts_hs st) h, nth_error (ts_lins st) h with
+  | Some keyed, Some id, Some lin =>
+      match dec_tobs keyed j with
+      | Some o =>
+          if existsb is_tvalidation lin || plan_is_written lin then
+            let cur := flat_colls 0 (tobs_colls o) in
+            let sane := colls_sane (tobs_colls o) in
+            let input := map trow_to_val rows in
+            (* model *)
+            let a :=
+              match tcollect (ts_g st) id [input], o with
+              | Some [(Ok out, lg)], TOOk orows _ =>
+                  ll_eqb (map tval_to_row out) orows &&
+                  delta_exact sq prev cur (map tentry_code lg)
+              | Some [(Panic, lg)], TOPanic _ =>
+                  if sq then delta_exact true prev cur (map tentry_code lg)
+                  else match tcollect (ts_g st) id [input] with
+                       | Some _ =>
+                           delta_within prev cur
+                             (map tentry_code
+                                  (snd (trun_steps (map relax_step (plan_tsteps lin)) input)))
+                       | None => false
+                       end
+              | _, _ => false
+              end in
+            (* reference *)
+            let p :=
+              match ref_lineage false lin rows, o with
+              | (Some out, pl), TOOk orows _ => ll_eqb out orows && delta_exact sq prev cur pl
+              | (None, pl), TOPanic _ =>
+                  if sq then delta_exact true prev cur pl
+                  else delta_within prev cur (snd (ref_lineage true lin rows))
+              | _, _ => false
+              end in
+            Some (sane && a, sane && p, cur)
+          else None
+      | None => None
+      end
+  | _, _, _ => None
+  end.
+
+Fixpoint judge_tree (st : tstate) (rows : list (list Z)) (prev : list (list Z))
+         (script os : list J) : option (bool * bool) :=
+  match script with
+  | [] => match os with [] => Some (true, true) | _ => None end
+  | JL [JI t; JI p; jstep] :: script' =>
+      if (t =? 0) && (0 <=? p) then
+        let pn := Z.to_nat p in
+        match nth_error (ts_shapes st) pn, nth_error (ts_hs st) pn, nth_error (ts_lins st) pn with
+        | Some keyed, Some pid, Some plin =>
+            match dec_tstep keyed jstep with
+            | Some (s, keyed') =>
+                let '(id, g') := tg_apply_transform (ts_g st) pid s in
+                judge_tree (mk_tstate g' (ts_hs st ++ [id]) (ts_shapes st ++ [keyed'])
+                                      (ts_lins st ++ [plin ++ [s]]))
+                           rows prev script' os
+            | None => None
+            end
+        | _, _, _ => None
+        end
+      else None
+  | JL [JI t; JI h; JI ex; JI _] :: script' =>
+      if (t =? 1) && (0 <=? h) && ((ex =? 0) || (ex =? 1)) then
+        match os with
+        | o :: os' =>
+            match judge_collect st rows prev (Z.to_nat h) (ex =? 0) o with
+            | Some (a, p, cur) =>
+                match judge_tree st rows cur script' os' with
+                | Some (a', p') => Some (a && a', p && p')
+                | None => None
+                end
+            | None => None
+            end
+        | [] => None
+        end
+      else None
+  | _ => None
+  end.
+
+Definition tree_init : tstate :=
+  let '(id, g) := tg_from_vec tg_empty in mk_tstate g [id] [] [[]].
+
 (* ---------- entry point ---------- *)
 Definition finish (r : option (bool * bool)) : verdict :=
   match r with Some (a, p) => ok_verdict a p | None => malformed end.
@@ -634,6 +946,22 @@ Definition check_C17 (kind : string) (input output : J) : verdict :=
         | _, _, _, _ => malformed
         end
     | _ => malformed
+    end
+  else if String.eqb kind "tree" then
+    (* in = [keyed source, threads, rows, script]; out = one observation per collect *)
+    match input, output with
+    | JL [jk; JI _; jrows; JL script], JL os =>
+        match jbit jk with
+        | Some keyed =>
+            match dec_tree_rows keyed jrows with
+            | Some rows =>
+                finish (judge_tree (mk_tstate (ts_g tree_init) (ts_hs tree_init) [keyed]
+                                              (ts_lins tree_init)) rows [] script os)
+            | None => malformed
+            end
+        | None => malformed
+        end
+    | _, _ => malformed
     end
   else if String.eqb kind "row" then
     (* in = [keyed, len, bits, maxp]; out = one outcome per row_cfgs entry *)
